@@ -645,6 +645,23 @@ Fixpoint spec_iter (fuel : nat) (sp : spec) (off : N) : option (list (N * rrec))
          end
   end.
 
+(* the flushed records from `off` on, in log order *)
+Definition flushed_from (sp : spec) (off : N) : list (N * rrec) :=
+  map (fun r => (a_off r, a_expect r))
+      (filter (fun r => (off <=? a_off r) && (a_end r <=? sp_flushed sp)) (sp_log sp)).
+
+(* truncation aimed at the start of a live record (what sierradb does), or a no-op *)
+Definition boundary_op (sp : spec) (op : sl_op) : Prop :=
+  match op with
+  | OSetLen o => sp_off sp <= o \/ exists r, In r (sp_log sp) /\ a_off r = o
+  | _ => True
+  end.
+Fixpoint boundary_ops (sp : spec) (ops : list sl_op) : Prop :=
+  match ops with
+  | [] => True
+  | op :: ops' => boundary_op sp op /\ boundary_ops (spec_step sp op) ops'
+  end.
+
 (* histories the theorems talk about: well-typed appends (the header has H bytes, everything is a byte, the
    stored length fits the 31-bit length field) and header replacement aimed at the start of a live record *)
 Definition wf_op (sp : spec) (op : sl_op) : Prop :=
